@@ -241,6 +241,311 @@ fn timeline(rep: &mut Report, rng: &mut Rng, ivl_ms: u64, to_ms: u64, v2: bool, 
   }
 }
 
+// ---- pair timelines: every security mechanism ----------------------------------------------------
+
+#[derive(Clone, Copy, Debug, PartialEq, Eq, Hash)]
+enum Mech {
+  Null,
+  Plain,
+  Curve,
+  Noise,
+}
+
+fn k32(r: &mut Rng) -> [u8; 32] {
+  let mut k = [0u8; 32];
+  k.copy_from_slice(&r.bytes(32));
+  k
+}
+
+/// (pair) The monitored engine A (heartbeats on) talks to a second real engine B through the harness, under NULL,
+/// PLAIN, CURVE or NOISE_XX, so that PING/PONG travel through the mechanism's own framer. The harness decides when
+/// bytes are delivered in each direction (a PONG can be held back past the timeout, or dropped), when A ticks, when
+/// data flows, and when B - whose own heartbeat may be on - pings A. A is judged with the same specification as
+/// the raw timelines (PING not early / not missing, close not early / not missing, alive peers never closed); B,
+/// being a real engine, shows whether A's PONG was decodable and carried the right context (B keeps the link) and
+/// whether anything A put on the wire was undecodable (B errors).
+fn pair_timeline(rep: &mut Report, rng: &mut Rng, mech: Mech, ivl_ms: u64, to_ms: u64, b_pings: bool, sample: bool) {
+  use vh::enginepair::{Pair, Sched};
+  let mut ca = EngineCfg::new("DEALER").heartbeat(Some(Duration::from_millis(ivl_ms)), Some(Duration::from_millis(to_ms)));
+  // B's own heartbeat: interval long enough not to interfere unless we tick it on purpose
+  let mut cb = EngineCfg::new("ROUTER");
+  if b_pings {
+    cb = cb.heartbeat(Some(Duration::from_millis(1)), Some(Duration::from_secs(3600)));
+  }
+  match mech {
+    Mech::Null => {}
+    Mech::Plain => {
+      ca = ca.plain(Some("user"), Some("pass"));
+      cb = cb.plain(Some("user"), Some("pass"));
+    }
+    Mech::Curve => {
+      let srv = rzmq::verif::curve_keypair_from(k32(rng));
+      let cli = rzmq::verif::curve_keypair_from(k32(rng));
+      ca = ca.curve(cli.0, Some(srv.1));
+      cb = cb.curve(srv.0, None);
+    }
+    Mech::Noise => {
+      let srv = rzmq::verif::noise_keypair_from(k32(rng));
+      let cli = rzmq::verif::noise_keypair_from(k32(rng));
+      ca = ca.noise_xx(cli.0, Some(srv.1));
+      cb = cb.noise_xx(srv.0, None);
+    }
+  }
+  let mut p = Pair::new(&ca, false, &cb, true);
+  p.start();
+  if !(p.run(Sched::LockStep, rng, 20000) && p.a.in_data() && p.b.in_data()) {
+    rep.inconclusive(format!("pair handshake failed for {:?}", mech));
+    return;
+  }
+  let ivl = Duration::from_millis(ivl_ms);
+  let to = Duration::from_millis(to_ms);
+  let margin = Duration::from_micros(1500);
+  let cfgname = format!("{:?} ivl={}ms timeout={}ms peer_pings={}", mech, ivl_ms, to_ms, b_pings);
+  let mut last_activity = Instant::now();
+  // the handshake's last bytes count as activity for A
+  p.a.eng.record_activity();
+  let mut waiting: Option<Instant> = None;
+  // the two directions of the byte stream, in order, never dropped (it is a stream): what is queued has been
+  // written by one engine and not yet read by the other - a peer that is slow or dead simply does not read
+  let mut to_b: Vec<u8> = vec![];
+  let mut to_a: Vec<u8> = vec![];
+  let mut log: Vec<String> = vec![];
+  let t0 = Instant::now();
+  let n = rng.range(8, 20);
+  let mut shape: Vec<&'static str> = vec![];
+  let mut traffic_only = false;
+  let delivered_b0 = p.b.delivered.len();
+  let delivered_a0 = p.a.delivered.len();
+  let mut data_sent_to_b = 0usize;
+  let mut data_sent_to_a = 0usize;
+  macro_rules! violation {
+    ($sig:expr, $what:expr) => {{
+      let sig: &str = if traffic_only { "traffic_does_not_count_as_liveness" } else { $sig };
+      rep.violation(format!("pair|{}|{:?}", sig, mech), format!("{} [{}]", $what, cfgname), json!({"config": cfgname, "timeline": log.iter().rev().take(14).rev().collect::<Vec<_>>()}));
+    }};
+  }
+  // B reads everything queued for it; its output is queued for A
+  macro_rules! b_reads {
+    () => {{
+      if !to_b.is_empty() {
+        let errs = p.b.errors.len();
+        let chunk = std::mem::take(&mut to_b);
+        let out = p.b.feed(&chunk);
+        to_a.extend(out);
+        if p.b.errors.len() > errs || p.b.closed() {
+          violation!("not_decodable_by_peer", format!("the peer engine rejected {} bytes A had written: {:?}", chunk.len(), p.b.errors.last()));
+          true
+        } else {
+          false
+        }
+      } else {
+        false
+      }
+    }};
+  }
+  // A reads everything queued for it (PONGs, data, the peer's PINGs); returns (bytes read, failed)
+  macro_rules! a_reads {
+    () => {{
+      if !to_a.is_empty() {
+        let errs = p.a.errors.len();
+        let chunk = std::mem::take(&mut to_a);
+        let out = p.a.feed(&chunk);
+        to_b.extend(out);
+        last_activity = Instant::now();
+        let failed = p.a.errors.len() > errs || p.a.closed();
+        if failed {
+          violation!("inbound_rejected", format!("A rejected {} bytes the peer engine had written: {:?}", chunk.len(), p.a.errors.last()));
+        }
+        (chunk.len(), failed)
+      } else {
+        (0usize, false)
+      }
+    }};
+  }
+  'events: for _ in 0..n {
+    if p.a.closed() {
+      break;
+    }
+    match rng.below(12) {
+      0 | 1 | 2 => {
+        let ms = rng.range(1, (ivl_ms as usize) * 3 / 2) as u64;
+        std::thread::sleep(Duration::from_millis(ms));
+        log.push(format!("+{:?} sleep {}ms", t0.elapsed(), ms));
+        shape.push("sleep");
+      }
+      3 | 4 | 5 => {
+        shape.push("tick");
+        let now = Instant::now();
+        let out = p.a.eng.on_tick(now);
+        let wire = p.a.absorb(out);
+        let pinged = !wire.is_empty();
+        let closed_now = p.a.closed();
+        to_b.extend(wire.iter().copied());
+        log.push(format!("+{:?} tick -> {} bytes out, closed={} (since_activity={:?}, waiting_for={:?})", t0.elapsed(), wire.len(), closed_now, now.duration_since(last_activity), waiting.map(|w| now.duration_since(w))));
+        match waiting {
+          Some(pt) => {
+            let el = now.duration_since(pt);
+            if el >= to + margin && !closed_now {
+              violation!("dead_peer_not_closed", format!("no PONG for {:?} (timeout {:?}) yet the tick did not close the connection", el, to));
+            }
+            if el + margin < to && closed_now {
+              violation!("closed_before_timeout", format!("connection closed {:?} after the PING, before HEARTBEAT_TIMEOUT {:?}", el, to));
+            }
+            if pinged && !closed_now {
+              violation!("ping_while_waiting", "a second PING was sent while one is outstanding".to_string());
+            }
+          }
+          None => {
+            let el = now.duration_since(last_activity);
+            if closed_now {
+              violation!("live_peer_closed", format!("tick closed a connection with no PING outstanding ({:?} since last activity)", el));
+            }
+            if el + margin < ivl && pinged {
+              violation!("ping_too_early", format!("PING sent {:?} after the last activity, sooner than HEARTBEAT_IVL {:?}", el, ivl));
+            }
+            if el >= ivl + margin && !pinged && !closed_now {
+              violation!("ping_missing", format!("no PING although {:?} passed since the last activity (HEARTBEAT_IVL {:?})", el, ivl));
+            }
+            if pinged {
+              waiting = Some(now);
+            }
+          }
+        }
+        if closed_now {
+          break;
+        }
+      }
+      6 | 7 => {
+        // the peer catches up with its input (answers PINGs) and A reads what came back
+        shape.push("peer_reads_and_answers");
+        if b_reads!() {
+          break 'events;
+        }
+        let (nread, failed) = a_reads!();
+        if failed {
+          break 'events;
+        }
+        if nread > 0 {
+          waiting = None;
+        }
+        log.push(format!("+{:?} peer read its input; {} bytes came back to A", t0.elapsed(), nread));
+      }
+      8 => {
+        // the peer reads but its answer is still in flight (A does not read yet)
+        shape.push("peer_reads");
+        if b_reads!() {
+          break 'events;
+        }
+        log.push(format!("+{:?} peer read its input ({} bytes waiting for A)", t0.elapsed(), to_a.len()));
+      }
+      9 => {
+        // data from the peer: proof of life
+        shape.push("inbound_data");
+        let mut fb = rzmq::FrameBatch::new();
+        fb.push(util::msg(b"traffic-from-peer".to_vec(), false));
+        let out = p.b.eng.on_app_message(fb);
+        let wire = p.b.absorb(out);
+        to_a.extend(wire);
+        data_sent_to_a += 1;
+        let (_, failed) = a_reads!();
+        if failed {
+          break 'events;
+        }
+        if waiting.is_some() {
+          waiting = None;
+          traffic_only = true;
+          log.push(format!("+{:?} inbound data while a PING is outstanding (peer is alive)", t0.elapsed()));
+        } else {
+          log.push(format!("+{:?} inbound data", t0.elapsed()));
+        }
+      }
+      10 => {
+        shape.push("outbound_data");
+        let mut fb = rzmq::FrameBatch::new();
+        fb.push(util::msg(b"traffic-to-peer".to_vec(), false));
+        let out = p.a.eng.on_app_message(fb);
+        let wire = p.a.absorb(out);
+        p.a.eng.record_activity();
+        last_activity = Instant::now();
+        data_sent_to_b += 1;
+        log.push(format!("+{:?} outbound data ({} bytes) written", t0.elapsed(), wire.len()));
+        to_b.extend(wire);
+      }
+      _ => {
+        // the peer pings A (only when B's heartbeat is on): A must answer at once with something B accepts
+        shape.push("peer_ping");
+        if b_pings {
+          if b_reads!() {
+            break 'events;
+          }
+          std::thread::sleep(Duration::from_millis(2));
+          let out = p.b.eng.on_tick(Instant::now());
+          let wire = p.b.absorb(out);
+          if !wire.is_empty() {
+            let ping_len = wire.len();
+            to_a.extend(wire);
+            let sent_before = p.a.sent.len();
+            let (_, failed) = a_reads!();
+            if failed {
+              break 'events;
+            }
+            if waiting.is_some() {
+              waiting = None;
+              traffic_only = true;
+            }
+            let answered: usize = p.a.sent[sent_before..].iter().map(|b| b.len()).sum();
+            log.push(format!("+{:?} peer PING ({} bytes) -> {} bytes out", t0.elapsed(), ping_len, answered));
+            if answered == 0 {
+              violation!("ping_not_answered", "a PING from the peer engine produced no output".to_string());
+            } else {
+              if b_reads!() {
+                break 'events;
+              }
+              // B got its PONG: its next tick (1 ms interval) must PING again rather than keep waiting or close
+              std::thread::sleep(Duration::from_millis(2));
+              let out = p.b.eng.on_tick(Instant::now());
+              let again = p.b.absorb(out);
+              if p.b.closed() {
+                violation!("pong_not_accepted_by_peer", "the peer engine closed after the answer to its PING".to_string());
+                break 'events;
+              }
+              if again.is_empty() {
+                violation!("pong_not_recognised_by_peer", "after A's answer the peer engine still waits for a PONG (its next tick sent no new PING)".to_string());
+              } else {
+                to_a.extend(again);
+                let (_, failed) = a_reads!();
+                if failed {
+                  break 'events;
+                }
+                if b_reads!() {
+                  break 'events;
+                }
+              }
+            }
+          }
+        }
+      }
+    }
+  }
+  // drain both directions, then conservation of the data messages
+  if !p.a.closed() && !p.b.closed() {
+    let _ = b_reads!();
+    let _ = a_reads!();
+    let _ = b_reads!();
+    if p.b.delivered.len() - delivered_b0 != data_sent_to_b {
+      violation!("data_lost_between_heartbeats", format!("{} data messages written towards the peer, {} delivered by it", data_sent_to_b, p.b.delivered.len() - delivered_b0));
+    }
+    if p.a.delivered.len() - delivered_a0 != data_sent_to_a {
+      violation!("data_lost_between_heartbeats", format!("{} data messages written by the peer, {} delivered by A", data_sent_to_a, p.a.delivered.len() - delivered_a0));
+    }
+  }
+  rep.case(&("pair", mech, ivl_ms, to_ms, b_pings, shape.clone()), true);
+  rep.count(&format!("pair_timelines[{:?}]", mech), 1);
+  if sample {
+    rep.sample(json!({"layer": "pair", "config": cfgname, "events": shape, "timeline_tail": log.iter().rev().take(6).rev().collect::<Vec<_>>()}));
+  }
+}
+
 // ---- egress buffer -----------------------------------------------------------------------------
 
 /// Random push / push_priority / partial advance sequences. Everything "written" (the bytes the
@@ -460,6 +765,19 @@ fn main() {
       if args.thorough() {
         rt.block_on(session_case(&mut rep, true, false, 50, 100));
         rt.block_on(session_case(&mut rep, false, false, 200, 100));
+      }
+    }
+    Some("pair") => {
+      let budget = Duration::from_secs(if args.thorough() { 240 } else { 35 });
+      let t0 = Instant::now();
+      let pairs = [(10u64, 30u64), (20, 20), (8, 60), (30, 10), (15, 45)];
+      let mechs = [Mech::Null, Mech::Plain, Mech::Curve, Mech::Noise];
+      let mut i = args.shard;
+      while t0.elapsed() < budget {
+        let (ivl, to) = pairs[i % pairs.len()];
+        let mech = mechs[(i / pairs.len()) % mechs.len()];
+        pair_timeline(&mut rep, &mut rng, mech, ivl, to, i % 3 == 0, i < args.shard + 2);
+        i += 1;
       }
     }
     Some("egress") => {
